@@ -91,7 +91,7 @@ def rerun(programs):
     code = ("import sys, json; sys.path.insert(0, %r)\n"
             "from harness.world import World\n"
             "import tempfile\n"
-            "w = World(tmpdir=tempfile.mkdtemp(prefix='verif_rr_', dir='/dev/shm'))\n"
+            "w = World(tmpdir=tempfile.mkdtemp(prefix='verif_rr_', dir=('/dev/shm' if __import__('os').path.isdir('/dev/shm') else None)))\n"
             "progs = json.load(sys.stdin)\n"
             "out = []\n"
             "for p in progs:\n"
@@ -102,7 +102,7 @@ def rerun(programs):
             "import shutil; shutil.rmtree(w.tmpdir, ignore_errors=True)\n"
             "json.dump(out, open(sys.argv[1], 'w'))\n") % VERIF
     import tempfile
-    fd, outpath = tempfile.mkstemp(prefix='verif_rr_', suffix='.json', dir='/dev/shm')
+    fd, outpath = tempfile.mkstemp(prefix='verif_rr_', suffix='.json', dir=('/dev/shm' if __import__('os').path.isdir('/dev/shm') else None))
     os.close(fd)
     try:
         p = subprocess.run([sys.executable, '-c', code, outpath], input=json.dumps(programs), capture_output=True, text=True)
